@@ -306,6 +306,10 @@ def gen_removal_case(rng):
     elif what < 0.85:
         r['atom_tmpl'][1] = {2: ['eq', rng.randint(1, 2)]}
     link['removed'].append([1, r])
+    if rng.random() < 0.4:
+        # the link that removes a bond also states its own bond on the same atoms: what it states must survive its own removal
+        own_meta = {} if rng.random() < 0.6 else {0: rng.randint(1, 2)}
+        link['inters'].append([1, {'atoms': [100, 101], 'params': [next(counter)], 'meta': own_meta}])
     links = [link]
     if rng.random() < 0.3:
         other = {'nodes': [dict(x) for x in link['nodes']], 'edges': [[100, 101]], 'non_edges': [], 'patterns': [], 'molmeta': {},
